@@ -1,4 +1,5 @@
 import Ufw.Props.C09
+import Ufw.Tie.Regp
 #print axioms Ufw.Props.C09.stored_le_capacity
 #print axioms Ufw.Props.C09.ledger
 #print axioms Ufw.Props.C09.channel_error_no_frame
@@ -7,3 +8,8 @@ import Ufw.Props.C09
 #print axioms Ufw.Props.C09.overflow_reply
 #print axioms Ufw.Props.C09.busy_reply
 #print axioms Ufw.Props.C09.short_frame_reply
+#print axioms Ufw.Tie.Regp.const_header_sizes
+#print axioms Ufw.Tie.Regp.const_options
+#print axioms Ufw.Tie.Regp.const_frame_types
+#print axioms Ufw.Tie.Regp.const_response_codes
+#print axioms Ufw.Tie.Regp.const_value_codes
